@@ -117,6 +117,7 @@ def check_program(args):
             if a is None:
                 st['not_a_pipeline'] += 1
                 return st, []
+            common.gc_tick(50)
             st['states'] += 1
             ea = epochs(a, salt=10)
             if any(x.startswith('raises') for x in ea):
